@@ -1026,6 +1026,31 @@ def torch_grad_histories():
     return out
 
 
+def torch_purity_histories():
+    """aliasing / literal / view purity probes for Amend and the other verbs that could write in place, on the
+    torch backend (torch's array() hands a tensor back as it is, slices are views)"""
+    L_ = lambda t, al: ("expr", ("raw", t, al))
+    out = []
+    # Amend: variable, alias, function-body literal, repeated literal text, function returning a literal
+    out.append([L_('a::[1 2 3 4]', ['a']), L_('b::a:=9,0', ['b']), L_('a', []), L_('b', []), L_('c::[1.5 2.5 3.5]', ['c']),
+                L_('d::c', ['d']), L_('b::d:=0.0,1', ['b']), L_('c', []), L_('d', []), L_('a:=7,[1 2]', []), L_('a', []),
+                L_('f::{[1 2 3]:=x,0}', ['f']), L_('f(5)', []), L_('f(6)', []), L_('[1 2 3]:=7,1', []), L_('[1 2 3]:=7,1', []),
+                L_('g::{[10 20 30]+0*x}', ['g']), L_('(g(0)):=0,2', []), L_('g(0)', [])])
+    # Amend / Amend-in-Depth of sub-lists obtained by take / drop / reverse / index
+    out.append([L_('a::[10 20 30 40]', ['a']), L_('b::2#a', ['b']), L_('c::b:=0,0', ['c']), L_('a', []), L_('b', []),
+                L_('b::1_a', ['b']), L_('c::b:=0,1', ['c']), L_('a', []), L_('b::|a', ['b']), L_('c::b:=5,0', ['c']), L_('a', []),
+                L_('b::a@[0 1]', ['b']), L_('c::b:=5,0', ['c']), L_('a', []), L_('c::(2#a):-1,0', ['c']), L_('a', []),
+                L_('d::[[1.0 2.0] [3.0 4.0]]', ['d']), L_('c::d:-9.0,0,1', ['c']), L_('d', []), L_('b::d@0', ['b']),
+                L_('c::b:=7.0,0', ['c']), L_('d', []), L_('b', []), L_('c::d:=0.0,1', ['c']), L_('d', [])])
+    # the other verbs: none of them may change its operand either
+    out.append([L_('a::[3 1 2]', ['a']), L_('b::a', ['b'])] +
+               [L_(t, []) if "::" not in t else L_(t, [t.split("::")[0]]) for t in
+                ['a,4', 'a', '4,a', 'a,a', 'a', '|a', 'a', 'a+1', 'a*2', 'a-a', 'a', '+/a', '*/a', '|/a', '+\\a', 'a', '<a', '>a',
+                 'a@<a', 'a', '1:+a', 'a', '[-1 3]:^a', 'a', '#a', '^a', '&a', 'a', '-a', 'a', '?a', 'a', '2#a', '5#a', 'a',
+                 'c::a:-0,1', 'a', 'b', 'a::a:=0,0', 'b', 'a']])
+    return out
+
+
 def gen_module_history(rng, length):
     """open, define, close, define same-named globals, re-open the same module, close, read (model grammar)"""
     names = ["a", "b"]
@@ -1472,7 +1497,9 @@ def _run(ctx):
                 "context, torch defaults) snapshotted around every statement and probe texts compared before/after in "
                 "brand-new interpreters; functions with local declarations in both spellings whose names collide with globals; "
                 "module open / define / close / same-named global / re-open / read histories; gradient operators ∇ :> ∂ by "
-                "variable name, by several names and by literal point, with losses that raise); each statement re-run in a fresh interpreter loaded with a copy of the pre-state and in a "
+                "variable name, by several names and by literal point, with losses that raise; on the torch backend the gradient family and a "
+                "deterministic purity family for Amend / Amend-in-Depth / the other verbs over variables, aliases, "
+                "function-body literals, repeated literal texts and take/drop/reverse/index sub-lists); each statement re-run in a fresh interpreter loaded with a copy of the pre-state and in a "
                 "cache-cleared interpreter; distinct = distinct histories; non-trivial = at least two statements")
     ctx.assumptions += [
         "Python-side mutation of arrays obtained through klong[name] is outside the property",
@@ -1519,7 +1546,7 @@ def _run(ctx):
             have_torch = False
             ctx.bump("torch-unavailable")
         if have_torch:
-            for h in torch_grad_histories():
+            for h in torch_grad_histories() + torch_purity_histories():
                 run_history(ctx, h, None, "scripted-torch", backend="torch")
             for s in range(10 if quick else 150):
                 h = gen_grad_history(ctx.rng, ctx.rng.randrange(4, 10))
